@@ -485,8 +485,8 @@ class CGenerator:
             s = " ".join(n.funcspec) + " "
         if n.storage:
             s += " ".join(n.storage) + " "
-        if n.align:
-            s += self.visit(n.align[0]) + " "
+        for align in n.align or []:
+            s += self.visit(align) + " "
         s += self._generate_type(n.type)
         return s
 
